@@ -216,10 +216,10 @@ func synctestUnit() Unit {
 			c.Cap("no Go 1.25+ toolchain in this environment: the synctest scenario is not run")
 			return
 		}
-		out, _ := exec.Command(bin, "-test.run", "TestSynctestCheck", "-test.v", "-rapid.nofailfile", "-rapid.checks=20", "-rapid.seed=7").CombinedOutput()
+		out, _ := exec.Command(bin, "-test.run", "TestSynctestCheck", "-test.v", "-rapid.nofailfile", "-rapid.checks=100", "-rapid.seed=7").CombinedOutput()
 		ms := reSync.FindAllStringSubmatch(string(out), -1)
-		if len(ms) < 2 {
-			c.R.HarnessErr = "synctest binary printed fewer than 2 result lines: " + trunc(string(out), 600)
+		if len(ms) < 3 {
+			c.R.HarnessErr = "synctest binary printed fewer than 3 result lines: " + trunc(string(out), 600)
 			return
 		}
 		for _, m := range ms {
@@ -227,8 +227,8 @@ func synctestUnit() Unit {
 			c.R.States++
 			c.R.Transitions++
 			c.Outcome(m[0], true)
-			if m[2] != "returned" || m[3] != "20" || strings.Contains(m[4], "failed=true") {
-				c.Violate(Violation{Sig: "C09 check-inside-synctest-bubble case=" + m[1] + " outcome=" + m[2], Detail: "a never-falsified property with -rapid.checks=20 inside synctest.Test on a go1.26 *testing.T: " + m[0],
+			if m[2] != "returned" || m[3] != "100" || strings.Contains(m[4], "failed=true") {
+				c.Violate(Violation{Sig: "C09 check-inside-synctest-bubble case=" + m[1] + " outcome=" + m[2], Detail: "a never-falsified property with -rapid.checks=100 inside synctest.Test on a go1.26 *testing.T: " + m[0],
 					Replay: map[string]any{"engine": "synctest", "case": m[1]}})
 			}
 		}
